@@ -17,15 +17,40 @@ def opt(f):
 
 
 def _wallet(kind, x, y, coin, minor, major, pid):
+    out = _wallet_form(kind, x, y, coin, minor, major, pid, False)
+    # the documented argument types are `bytes or key object`: the same keys given as objects must give the same wallet
+    try:
+        out_obj = _wallet_form(kind, x, y, coin, minor, major, pid, True)
+    except _NoObjectForm:
+        return out
+    if out_obj != out:
+        return "ARGUMENT-FORM-DEPENDENT bytes: %s | key objects: %s" % (out[:200], out_obj[:200])
+    return out
+
+
+class _NoObjectForm(Exception):
+    pass
+
+
+def _wallet_form(kind, x, y, coin, minor, major, pid, as_objects):
+    from bip_utils import Ed25519PrivateKey, Ed25519MoneroPrivateKey, Ed25519MoneroPublicKey
     c = MoneroCoins[coin]
+
+    def obj(cls, b):
+        try:
+            return cls.FromBytes(b)
+        except Exception:  # noqa  (an invalid key has no object form; the bytes form reports the error)
+            raise _NoObjectForm()
     if kind == "seed":
+        if as_objects:
+            raise _NoObjectForm()
         w = Monero.FromSeed(unhx(x), c)
     elif kind == "spend":
-        w = Monero.FromPrivateSpendKey(unhx(x), c)
+        w = Monero.FromPrivateSpendKey(obj(Ed25519MoneroPrivateKey, unhx(x)) if as_objects else unhx(x), c)
     elif kind == "bip44":
-        w = Monero.FromBip44PrivateKey(unhx(x), c)
+        w = Monero.FromBip44PrivateKey(obj(Ed25519PrivateKey, unhx(x)) if as_objects else unhx(x), c)
     else:
-        w = Monero.FromWatchOnly(unhx(x), unhx(y), c)
+        w = Monero.FromWatchOnly(obj(Ed25519MoneroPrivateKey, unhx(x)), obj(Ed25519MoneroPublicKey, unhx(y)), c) if as_objects else Monero.FromWatchOnly(unhx(x), unhx(y), c)
     return " ".join([opt(lambda: hx(w.PrivateSpendKey().Raw().ToBytes())), hx(w.PrivateViewKey().Raw().ToBytes()),
                      hx(w.PublicSpendKey().RawCompressed().ToBytes()), hx(w.PublicViewKey().RawCompressed().ToBytes()),
                      opt(lambda: tx(w.PrimaryAddress())), opt(lambda: tx(w.Subaddress(int(minor), int(major)))),
